@@ -21,7 +21,10 @@ template <typename T, size_t o, size_t nn>
 void opCase(Ctx &c, Rng &g, int kind) {
   using namespace bspline::operators;
   const bool dyadic = !ST<T>::exact;
-  const std::vector<R> pts = genGrid(g, dyadic, 2, 9);
+  const bool large = c.caseId % 32 == 31;  // occasionally 65..120 points
+  const std::vector<R> pts =
+      large ? genGrid(g, dyadic, 65, 120) : genGrid(g, dyadic, 2, 9);
+  c.count(large ? "grid:large" : "grid:small");
   const size_t n = pts.size();
   const Grid<T> grid = mkGrid<T>(pts);
   Win w;
@@ -56,8 +59,9 @@ void opCase(Ctx &c, Rng &g, int kind) {
   static const char *kn[] = {"Dx", "X", "Identity"};
   const std::string tag = std::string(kn[kind]) + "<" + std::to_string(nn) +
                           ">/order" + std::to_string(o);
-  const std::string desc = tag + " grid " + gridStr(pts) + " operand " +
-                           splineStr(s);
+  const std::string desc =
+      tag + " grid " + (large ? std::to_string(n) + " points" : gridStr(pts)) +
+      " operand " + (large ? "window " + winStr(w) : splineStr(s));
   c.count(std::string("window:") + wname);
   c.count(std::string("op:") + kn[kind] + std::to_string(nn));
   c.count("order:" + std::to_string(o));
